@@ -27,8 +27,8 @@ import (
 type version struct{ maj, min int }
 
 func (v version) le(w version) bool { return v.maj < w.maj || (v.maj == w.maj && v.min <= w.min) }
-func (v version) coq() string        { return fmt.Sprintf("(%d, %d)%%Z", v.maj, v.min) }
-func (v version) String() string     { return fmt.Sprintf("%d.%d", v.maj, v.min) }
+func (v version) coq() string       { return fmt.Sprintf("(%d, %d)%%Z", v.maj, v.min) }
+func (v version) String() string    { return fmt.Sprintf("%d.%d", v.maj, v.min) }
 
 // apiSince parses GOROOT/api/go1*.txt: "pkg.Func" -> first version, and method name -> first version.
 func apiSince() (funcs map[string]version, methods map[string]version, newest version, err error) {
